@@ -256,6 +256,25 @@ func relCase(class string, tags osm.Tags) *wire.Case {
 	return c
 }
 
+func findCase(class string, tags osm.Tags, key string) *wire.Case {
+	obs := cloneTags(tags).Find(key)
+	c := &wire.Case{Class: class}
+	c.Int(4)
+	putTags(c, tags)
+	pstr(c, key)
+	pstr(c, obs)
+	d := map[string]interface{}{"call": "Tags.Find", "tags": showTags(tags), "key": show(key), "observed": show(obs)}
+	if distinctKeys(tags) {
+		exp := tags.Map()[key]
+		d["expected"] = show(exp)
+		if obs != exp {
+			c.OracleFail = fmt.Sprintf("Tags.Find(%q) = %q, the tag set has %q", key, obs, exp)
+		}
+	}
+	c.Desc = d
+	return c
+}
+
 func isSorted(l []string) bool { return sort.StringsAreSorted(l) }
 
 func tableCase(rt []osm.VerifPolyCondition, names [3]string) *wire.Case {
@@ -355,7 +374,7 @@ func main() {
 	a := wire.ParseArgs()
 	rng := wire.Rng(a.Seed)
 	w := wire.NewWriter("C18", a.Seed, a.Tier)
-	w.Rule = "single-key sweep (exhaustive): every rule key (run-time table + published table) x (every value listed for any key + specials \"\", no, yes, unlisted, No, ... + byte-order neighbours of the key's own listed values [thorough: of all listed values]) x area in {absent, \"\", no, yes, x}, both tag orders alternating, on a closed 4-ring; length sweep 0..7 x closed/open/all-equal x tag sets; every id sequence over {1,2,3} of length 0..5; pairs (list key x any key) x pass/fail/no values x both orders; random tag sets in 3-6 (or all) orders; irrelevant and near-miss keys inserted; duplicate keys (model only); relations: type values x other tags x positions; the run-time table. distinct = distinct token streams; trivial = none."
+	w.Rule = "single-key sweep (exhaustive): every rule key (run-time table + published table) x (every value listed for any key + specials \"\", no, yes, unlisted, No, ... + byte-order neighbours of the key's own listed values [thorough: of all listed values]) x area in {absent, \"\", no, yes, x}, both tag orders alternating, on a closed 4-ring; length sweep 0..7 x closed/open/all-equal x tag sets; every id sequence over {1,2,3} of length 0..5; pairs (list key x any key) x pass/fail/no values x both orders; random tag sets in 3-6 (or all) orders; irrelevant and near-miss keys inserted; duplicate keys (model only); relations: type values x other tags x positions; Tags.Find on present/absent/near-miss keys; the run-time table. distinct = distinct token streams; trivial = none."
 	thorough := a.Tier == "thorough"
 
 	rt := osm.VerifPolyConditions()
@@ -610,6 +629,9 @@ func main() {
 			c.OracleFail = "Way.Polygon() changed when tags with unrelated keys were added"
 		}
 		w.Add(c)
+		// Tags.Find on a present and on an absent / near-miss key
+		w.Add(findCase("find", tags, tags[rng.Intn(len(tags))].Key))
+		w.Add(findCase("find", t, pick(irrelevant)))
 		// a duplicate key (outside the property: only the model is compared)
 		if s%5 == 0 {
 			d := cloneTags(tags)
@@ -618,6 +640,7 @@ func main() {
 			dup := osm.Tag{Key: d[j].Key, Value: pick([]string{"no", "yes", "", pick(valuePool)})}
 			d = append(d[:pos], append(osm.Tags{dup}, d[pos:]...)...)
 			w.Add(wayCase("dup", ids, d))
+			w.Add(findCase("find-dup", d, dup.Key))
 		}
 	}
 	for _, d := range []osm.Tags{
@@ -678,6 +701,10 @@ func main() {
 		c3.Toks[len(c3.Toks)-1] ^= 2
 		c3.Canary, c3.OracleFail = 1, ""
 		w.Add(c3)
+		c5 := findCase("", osm.Tags{{Key: "name", Value: "x"}, {Key: "area", Value: "yes"}}, "area")
+		c5.Toks[len(c5.Toks)-1] ^= 1 // last byte of the observed value
+		c5.Canary, c5.OracleFail = 1, ""
+		w.Add(c5)
 		// a run-time table whose first multi-valued list has its first two values swapped
 		rt2 := osm.VerifPolyConditions()
 		for i := range rt2 {
